@@ -11,18 +11,22 @@ def run(ctx):
     thorough = ctx.tier == "thorough"
     cfgs = []  # (name, flags, argv, distinct)
     if thorough:
-        cfgs += [("bfs_K3_T4_ledger", LEDGER, [3, 4, 3, 3, "bfs", 100, 900], True),
-                 ("bfs_K3_T4_asan", ASAN, [3, 4, 3, 3, "bfs", 100, 900], False),
-                 ("bfs_K3_T4_O2", NDEBUG, [3, 4, 3, 3, "bfs", 100, 900], False),
-                 ("bfs_K4_T2_ledger", LEDGER, [4, 2, 2, 2, "bfs", 100, 900], True),
+        cfgs += [("bfs_K3_T4_noprov_ledger", LEDGER, [3, 4, 3, 3, "bfs", 100, 900, "noprov"], True),
+                 ("bfs_K3_T4_noprov_asan", ASAN, [3, 4, 3, 3, "bfs", 100, 900, "noprov"], False),
+                 ("bfs_K3_T4_noprov_O2", NDEBUG, [3, 4, 3, 3, "bfs", 100, 900, "noprov"], False),
+                 ("bfs_K3_T4_small_prov_ledger", LEDGER, [3, 4, 2, 2, "bfs", 100, 900], True),
+                 ("bfs_K3_T4_small_prov_asan", ASAN, [3, 4, 2, 2, "bfs", 100, 900], False),
+                 ("bfs_K2_T4_prov_ledger", LEDGER, [2, 4, 3, 3, "bfs", 100, 900], True),
+                 ("bfs_K2_T4_prov_asan", ASAN, [2, 4, 3, 3, "bfs", 100, 900], False),
+                 ("bfs_K4_T2_noprov_ledger", LEDGER, [4, 2, 2, 2, "bfs", 100, 900, "noprov"], True),
                  ("all_K2_len6_ledger", LEDGER, [2, 2, 3, 3, "all", 6, 900], True),
-                 ("all_K2_len5_asan", ASAN, [2, 4, 3, 3, "all", 5, 900], True)]
+                 ("all_K2_T4_len5_asan", ASAN, [2, 4, 3, 3, "all", 5, 900], True)]
     else:
-        cfgs += [("bfs_K2_T2_ledger", LEDGER, [2, 2, 3, 3, "bfs", 100, 300], True),
-                 ("bfs_K2_T2_asan", ASAN, [2, 2, 3, 3, "bfs", 100, 300], False),
-                 ("bfs_K3_T4_small_ledger", LEDGER, [3, 4, 2, 2, "bfs", 100, 300], True),
-                 ("bfs_K3_T4_small_O2", NDEBUG, [3, 4, 2, 2, "bfs", 100, 300], False),
-                 ("all_K2_len4_asan", ASAN, [2, 2, 3, 3, "all", 4, 300], True)]
+        cfgs += [("bfs_K2_T4_prov_ledger", LEDGER, [2, 4, 3, 3, "bfs", 100, 300], True),
+                 ("bfs_K2_T4_prov_asan", ASAN, [2, 4, 3, 3, "bfs", 100, 300], False),
+                 ("bfs_K3_T4_small_noprov_ledger", LEDGER, [3, 4, 2, 2, "bfs", 100, 300, "noprov"], True),
+                 ("bfs_K3_T4_small_noprov_O2", NDEBUG, [3, 4, 2, 2, "bfs", 100, 300, "noprov"], False),
+                 ("all_K2_T4_len4_asan", ASAN, [2, 4, 3, 3, "all", 4, 300], True)]
     js = [Job(n, SRC, f, [], a, timeout=(1500 if thorough else 600), distinct=d, env={"ASAN_OPTIONS": "detect_leaks=1:abort_on_error=0"}) for n, f, a, d in cfgs]
     total = core.build_and_run(ctx, js)
     # identical configurations must agree on the digest of all observations across builds
@@ -45,7 +49,7 @@ def run(ctx):
         "samples": total.get("samples", [])[:6] or ["(none)"],
         "rule": "explicit-state BFS to fixpoint over operation histories on a pool of K interchangeable slots; alphabet: new(type,ext) / write(cell,val) / copy-ctor / move-ctor / copy-assign incl. self / move-assign / convert (copying and moving form) / dump+load / destroy; "
                 "types S=strided<size2,array<float1>>, M=morton<...,false>, W=affine<nn<S>>, V=affine<nn<M>>; extents (1,1),(2,1),(1,2); values 0..2; moved-from slots only accept assignment and destruction; "
-                "a state is the history that reaches it, replayed on fresh objects; canonical form = sorted per-slot (dead | moved-from type | type,extents,values); every transition is executed on the implementation and checked after every operation "
+                "a state is the history that reaches it, replayed on fresh objects; canonical form = sorted per-slot (dead | moved-from type | type,extents,values,provenance of the buffer: new / copied / converted / loaded - kept because hidden state such as the true allocation size can differ between a fresh and a converted field; 'noprov' runs drop it to reach larger pools); every transition is executed on the implementation and checked after every operation "
                 "against the plain array model (values at all coordinates, extents, no two live fields sharing a buffer), the allocation ledger (no leak, double or foreign free at teardown) or ASan/UBSan/LSan; "
                 "'all' runs enumerate every history up to the stated length without merging states; configurations: " + ", ".join("%s=%s" % (c[0], c[2]) for c in cfgs),
         "per_run": {j.name: {k: v for k, v in j.stats.items() if k in ("states", "transitions", "max_depth", "fixpoint_reached", "all_histories_up_to_length")} for j in js if j.stats},
